@@ -100,7 +100,7 @@ Example toy_powerloss_theorem_instance : forall n v,
     allowedl toy_cfg [] (toy_hl n v) sg /\ km (idx (h_mem hd)) = StoreInv.km_of toyH sg.
 Proof.
   intros n v.
-  destruct (C09_powerloss_partial toyH toyH_len toyH_byte toy_cfg eq_refl eq_refl (toy_hl n v) eq_refl)
+  destruct (C09_powerloss_partial toyH toyH_len toyH_byte toy_cfg eq_refl eq_refl (toy_hl n v))
     as (hd0 & w0 & E0 & hd & w' & E & _ & _ & sg & Al & (L & _)).
   - reflexivity.
   - cbn. repeat split; auto.
